@@ -50,6 +50,7 @@ pub mod model {
             NATIVE_STATE = x;
             (x >> 16) as u32
         };
+        #[cfg(feature = "drawlog")]
         unsafe {
             if NDRAWS < MAX_DRAWS {
                 DRAWS[NDRAWS] = v;
@@ -70,6 +71,7 @@ pub mod model {
             NATIVE_STATE = x;
             (x >> 24) as u8
         };
+        #[cfg(feature = "drawlog")]
         unsafe {
             NBYTES += 1;
         }
@@ -108,6 +110,7 @@ pub struct ThreadRng(());
 model_rng!(ThreadRng);
 /// Model of `rand::thread_rng()`.
 pub fn thread_rng() -> ThreadRng {
+    #[cfg(feature = "drawlog")]
     unsafe {
         model::NHANDLES += 1;
     }
